@@ -898,6 +898,11 @@ class Engine:
             for path, progress in self.front.items()
             if path in self.process_paths}
 
+    def _advance_quiet_paths(self, quiet_paths: list) -> None:
+        '''Bring quiet processes up to the global time.'''
+        for quiet in quiet_paths:
+            self.front[quiet] = empty_front(self.global_time)
+
     def run_for(
             self,
             interval: float,
@@ -991,9 +996,11 @@ class Engine:
                 # no processes ran, jump to next process
                 next_event = end_time
                 for path in self.front.keys():
-                    if self.front[path]['time'] < next_event:
+                    if self.global_time < self.front[path]['time'] \
+                            < next_event:
                         next_event = self.front[path]['time']
                 self.global_time = next_event
+                self._advance_quiet_paths(quiet_paths)
 
             elif self.global_time + full_step <= end_time:
                 # at least one process ran within the interval
@@ -1033,6 +1040,7 @@ class Engine:
             else:
                 # all processes have run past the interval
                 self.global_time = end_time
+                self._advance_quiet_paths(quiet_paths)
 
             if force_complete and self.global_time == end_time:
                 force_complete = False
